@@ -913,9 +913,6 @@ def main(ctx):
             ctx.fail('correspondence', what, meta[b])
         for _ in lits:
             ctx.count(name, len(ctx._distinct), nontrivial=False)
-    if os.environ.get('C09_DEBUG'):
-        import json as _j
-        _j.dump(ctx.violations, open(os.environ['C09_DEBUG'], 'w'), default=str)
     ctx.cov['traces_validated_against_impl'] = len(perm_lits) + len(form_lits) + n_addblocks + n_swapsign
     ctx.cov['input_distribution'] = hist
     ctx.assumptions += [
